@@ -42,8 +42,8 @@ def relayout(rng, sql, multibyte=True, multiline_lit=0.03):
     return "".join(out)
 
 
-def gen_file(rng, errors=0.0, engine="postgresql"):
-    sch = Schema(rng)
+def gen_file(rng, errors=0.0, engine="postgresql", sch=None, prefix="Q"):
+    sch = sch or Schema(rng)
     k = rng.randint(1, 5)
     parts, kinds = [], []
     if rng.random() < 0.3:
@@ -56,7 +56,7 @@ def gen_file(rng, errors=0.0, engine="postgresql"):
         if bad and rng.random() < 0.3 and kind in ("insert", "update", "delete"):
             sql = sql.split(" RETURNING")[0]
             cmd = ":one"
-        name = "Q%d" % (i + 1)
+        name = "%s%d" % (prefix, i + 1)
         ann = "-- name: %s %s" % (name, cmd)
         if rng.random() < 0.15:
             ann = "/* name: %s %s */" % (name, cmd)
